@@ -282,4 +282,52 @@ def rootShards (count : Nat) : List Shard :=
 
 def initSp (shards runners : Nat) : Sp := { stream := rootShards shards, runners := runners }
 
+/-! ## Job recovery: which cut the operators and the sources resume from (`jobs/job.go start`) -/
+
+/-- a job checkpoint: id and the source position the runner reported for it -/
+abbrev JCk := Nat × Nat
+
+/-- `finishSnapshotAsync`: the newest published checkpoint stays current -/
+def publish (cur : Option JCk) (c : JCk) : Option JCk :=
+  match cur with
+  | none => some c
+  | some o => if o.1 < c.1 then some c else some o
+
+structure JSt where
+  current : Option JCk := none   -- `snapshotStore.CurrentCheckpoint()`
+  held : List JCk := []          -- acknowledged by everybody, snapshot file still being written
+  lastId : Nat := 0
+  reported : List JCk := []      -- ghost: every (checkpoint id, position) a runner reported
+deriving Repr
+
+inductive JAct where
+  | ckpt (pos : Nat) (hold : Bool)   -- a checkpoint completes; its snapshot write finishes now or is held
+  | release                          -- held writes finish
+  | start (race : Bool)              -- (re)deploy; `race`: the held writes finish between Deploy and splitter Start
+deriving Repr
+
+/-- what a (re)start does: the checkpoint id the operators are deployed with and the position the source split is
+assigned with (httpapi splitter: the last non-empty split state) -/
+abbrev JObs := Option Nat × Option Nat
+
+def jrelease (s : JSt) : JSt := { s with current := s.held.foldl publish s.current, held := [] }
+
+def jstep (s : JSt) : JAct → JSt × Option JObs
+  | .ckpt pos hold =>
+    let c : JCk := (s.lastId + 1, pos)
+    let s' := { s with lastId := s.lastId + 1, reported := s.reported ++ [c] }
+    (if hold then { s' with held := s'.held ++ [c] } else { s' with current := publish s'.current c }, none)
+  | .release => (jrelease s, none)
+  | .start race =>
+    -- `ckpt := j.snapshotStore.CurrentCheckpoint()` is read once and used for `assembly.Deploy` and `sourceSplitter.Start`
+    let ck := s.current
+    (if race then jrelease s else s, some (ck.map (·.1), ck.map (·.2)))
+
+def jrun (s : JSt) : List JAct → JSt × List JObs
+  | [] => (s, [])
+  | a :: as =>
+    let (s', o) := jstep s a
+    let (s'', os) := jrun s' as
+    (s'', o.toList ++ os)
+
 end Rxn.Splits
